@@ -12,21 +12,31 @@ None == "none"
 \*
 \* Events (one per handshake message / environment action, all connections pre-accepted):
 \*  Msg: c, k ("FC" | "P1" | "P2"), id (claimed client name or "none"), type ("control" | "tunnel"),
-\*       key  (whose secret keyed the response: a client name, "empty" = the empty key, or "garbage"),
+\*       key  (whose secret keyed the response: a client name = that client's stored secret as it is now, "old" = the
+\*             secret of the claimed client that was handed out first and has been reset since, "empty" = the empty
+\*             key, or "garbage"),
 \*       over (index of the challenge of connection c the response was computed over, 0 = none),
 \*       out  [got, success, need, newid (identity issued, or "none"), nonce (index of the challenge
 \*             carried by the response, 0 = none)],
 \*       post [conns: c -> [authd, cid], lookup: X -> connection name or "none"]
-\*  Env: k ("Ban" | "Blacklist": address of c barred from now on; "Expire" | "Bind": client id's stored
-\*       expiry date rewritten, isexp = it lies in the past now (for bound and unbound clients alike);
-\*       other kinds, e.g. the protector's clean-up pass, change nothing the statement talks about), c / id
-\* Judge state: known / expired clients, barred addresses (= connections), challenges issued
+\*  Env: k ("Ban": address of c banned by the protector from now on; "Blacklist": address of c on the operator's
+\*       blacklist from now on - whatever the shape of the entry and however often the server is restarted
+\*       ("Reload": the address manager is re-created from the shared storage; the lists are what they were);
+\*       "Whitelist": address of c on the operator's whitelist - the statement is silent about an address on both
+\*       lists, so such an address counts as not blacklisted (a ban still bars it); "Expire" | "Bind": client id's
+\*       stored expiry date rewritten, isexp = it lies in the past now (for bound and unbound clients alike);
+\*       "Corrupt": the stored secret of id cannot be decrypted by the server any more, "Rekey": it was replaced by
+\*       a fresh one - neither makes anybody else a key holder; "Delete": the record of id was removed, the server
+\*       does not know the client any more; other kinds, e.g. the protector's clean-up pass,
+\*       change nothing the statement talks about), c / id
+\* Judge state: known / expired clients, banned (barred), blacklisted (bl) and whitelisted (wl) addresses
+\* (= connections), challenges issued
 \* and accepted per connection, proved = pairs <<c, X>> "X was issued on c or c answered its
 \* latest challenge with X's key", pre = previous post-state.
-VARIABLES known, expired, barred, issuedN, usedN, proved, pre, hasPre
-avars == <<l, viol, known, expired, barred, issuedN, usedN, proved, pre, hasPre>>
+VARIABLES known, expired, barred, bl, wl, issuedN, usedN, proved, pre, hasPre
+avars == <<l, viol, known, expired, barred, bl, wl, issuedN, usedN, proved, pre, hasPre>>
 
-Init == /\ l = 1 /\ viol = {} /\ known = {} /\ expired = {} /\ barred = {}
+Init == /\ l = 1 /\ viol = {} /\ known = {} /\ expired = {} /\ barred = {} /\ bl = {} /\ wl = {}
             /\ issuedN = {} /\ usedN = {} /\ proved = {} /\ pre = <<>> /\ hasPre = FALSE
 
 Latest(c) == LET ns == {p[2] : p \in {q \in issuedN : q[1] = c}} IN
@@ -36,12 +46,13 @@ PreAuthd(d)  == IF hasPre /\ d \in DOMAIN pre.conns THEN pre.conns[d].authd ELSE
 PreCid(d)    == IF hasPre /\ d \in DOMAIN pre.conns THEN pre.conns[d].cid ELSE None
 PreLookup(X) == IF hasPre /\ X \in DOMAIN pre.lookup THEN pre.lookup[X] ELSE None
 
-KeyClass(e)   == IF e.key = e.id THEN "own" ELSE IF e.key = "garbage" THEN "garbage" ELSE IF e.key = "empty" THEN "empty" ELSE "foreign"
+KeyClass(e)   == IF e.key = e.id THEN "own" ELSE IF e.key = "garbage" THEN "garbage" ELSE IF e.key = "empty" THEN "empty"
+                 ELSE IF e.key = "old" THEN "old" ELSE "foreign"
 NonceClass(e) == IF e.over = 0 THEN "none"
                  ELSE IF <<e.c, e.over>> \in usedN THEN "used"
                  ELSE IF e.over = Latest(e.c) THEN "latest" ELSE "stale"
 ClientClass(e) == IF e.id \notin known THEN "unknown" ELSE IF e.id \in expired THEN "expired" ELSE "ok"
-AddrClass(e)   == IF e.c \in barred THEN "barred" ELSE "ok"
+AddrClass(e)   == IF e.c \in barred \/ (e.c \in bl /\ e.c \notin wl) THEN "barred" ELSE "ok"
 OutClass(e)    == IF e.out.success THEN "success" ELSE IF e.out.need THEN "challenge" ELSE "fail"
 MsgShape(e)    == e.k \o ":" \o e.type \o ":" \o OutClass(e)
 
@@ -79,17 +90,20 @@ TrMsg ==
         /\ issuedN' = IF e.out.nonce > 0 THEN issuedN \cup {<<e.c, e.out.nonce>>} ELSE issuedN
         /\ usedN' = IF ok /\ e.k = "P2" /\ e.over > 0 THEN usedN \cup {<<e.c, e.over>>} ELSE usedN
         /\ pre' = e.post /\ hasPre' = TRUE
-  /\ l' = l + 1 /\ UNCHANGED <<expired, barred>>
+  /\ l' = l + 1 /\ UNCHANGED <<expired, barred, bl, wl>>
 
 TrEnv ==
   /\ Is("Env")
-  /\ barred' = IF Ev.k \in {"Ban", "Blacklist"} THEN barred \cup {Ev.c} ELSE barred
+  /\ barred' = IF Ev.k = "Ban" THEN barred \cup {Ev.c} ELSE barred
+  /\ bl' = IF Ev.k = "Blacklist" THEN bl \cup {Ev.c} ELSE bl
+  /\ wl' = IF Ev.k = "Whitelist" THEN wl \cup {Ev.c} ELSE wl
   /\ expired' = IF Ev.k \in {"Expire", "Bind"}   \* isexp: the stored expiry date of the client lies in the past now
                 THEN (IF Ev.isexp THEN expired \cup {Ev.id} ELSE expired \ {Ev.id}) ELSE expired
-  /\ l' = l + 1 /\ UNCHANGED <<viol, known, issuedN, usedN, proved, pre, hasPre>>
+  /\ known' = IF Ev.k = "Delete" THEN known \ {Ev.id} ELSE known   \* the record is gone: an unknown client from now on
+  /\ l' = l + 1 /\ UNCHANGED <<viol, issuedN, usedN, proved, pre, hasPre>>
 
 TrEndAuth == /\ Is("End") /\ EmitVerdict
-             /\ l' = l + 1 /\ viol' = {} /\ known' = {} /\ expired' = {} /\ barred' = {}
+             /\ l' = l + 1 /\ viol' = {} /\ known' = {} /\ expired' = {} /\ barred' = {} /\ bl' = {} /\ wl' = {}
              /\ issuedN' = {} /\ usedN' = {} /\ proved' = {} /\ pre' = <<>> /\ hasPre' = FALSE
 
 Next == TrMsg \/ TrEnv \/ TrEndAuth
